@@ -10,6 +10,7 @@ import GrafeoModel.Driver.Lpg
 import GrafeoModel.Driver.Sess
 import GrafeoModel.Driver.Algo
 import GrafeoModel.Driver.Hnsw
+import GrafeoModel.Driver.Pers
 
 /-!
 `gdriver`: reads op lines `<stream> <op> <arg>*` on stdin, writes one line per op:
@@ -23,6 +24,7 @@ structure DState where
   rdf : DriverRdf.St := {}
   lpg : DriverLpg.St := {}
   sess : DriverSess.St := {}
+  pers : DriverPers.St := {}
 
 def dispatch (st : DState) (line : String) : DState × String :=
   let toks := (line.trimAscii.toString.splitOn " ").filter (· ≠ "")
@@ -68,6 +70,10 @@ def dispatch (st : DState) (line : String) : DState × String :=
     else if stream == "sess" then
       match DriverSess.handle st.sess args with
       | some (t', o) => ({ st with sess := t' }, o.render)
+      | none => (st, "bad-op")
+    else if stream == "pers" then
+      match DriverPers.handle st.pers args with
+      | some (t', o) => ({ st with pers := t' }, o.render)
       | none => (st, "bad-op")
     else if stream == "rdf" then
       match DriverRdf.handle st.rdf args with
